@@ -422,8 +422,11 @@ class HttpParser(abc.ABC, Generic[_MsgT]):
 
                         assert self.protocol is not None
                         # calculate payload
+                        # Only a *response* to HEAD is body-less; a HEAD *request*
+                        # (code == 0) is framed by Content-Length/Transfer-Encoding
+                        # like any other request (RFC 9112 section 6.3).
                         empty_body = code in EMPTY_BODY_STATUS_CODES or bool(
-                            method and method in EMPTY_BODY_METHODS
+                            code and method and method in EMPTY_BODY_METHODS
                         )
                         if not empty_body and (
                             (length is not None and length > 0) or msg.chunked
